@@ -14,6 +14,8 @@ The model functions are total (structural recursion on the element count) and ha
 does not represent the `unreachable!` / `expect` sites of typed decoding — listed under `partial`.
 -/
 import ScyllaVerif.Model.Codec
+import ScyllaVerif.Proofs.C08ValueNP
+import ScyllaVerif.Proofs.C08TabletNP
 
 namespace ScyllaVerif.Props.C08Typed
 open ScyllaVerif.Codec ScyllaVerif.Vint ScyllaVerif.Cql
@@ -202,5 +204,87 @@ example : (match decSeq (fun b => .ok (.blob b)) 2 [0, 0, 0, 4, 1, 2, 3, 4, 0, 0
     | .ok vs => vs.length == 2
     | .error _ => false) = true := by
   decide +kernel
+
+/-! ### typed values never panic
+
+`Model/C08Value.lean` transcribes `CqlValue::deserialize`, the collection / vector / UDT iterators and
+`Row::deserialize` with a `panic` outcome at every partial operation of that code (the four `unreachable!`s, `split_at`,
+the shift / `read_uint` / `+=` of the vint decoder, `2 * count`, the column counter's `expect`).  `CqlValue`'s
+`type_check` accepts every column type, so "all column types that pass type_check for the target" is: all column types.
+The model is compared with the real `rows_iter::<Row>()` on every Rows case of the run (token `typed=`). -/
+
+open ScyllaVerif.C08V in
+/-- `CqlValue::deserialize` never panics: for EVERY column type and ALL bytes of the cell. -/
+theorem no_panic_typed (u : Bytes → Bool) (t : CqlTy) (bs : Bytes) (site : String) :
+    decValP u t bs ≠ .panic site :=
+  decValP_np u t bs site
+
+open ScyllaVerif.C08V in
+/-- A whole result: `rows_iter::<Row>()` over any number of announced rows, any column types, any bytes, never
+panics (the column list must fit in memory: at most `usize::MAX` columns). -/
+theorem no_panic_typed_rows (u : Bytes → Bool) (ts : List CqlTy) (hts : ts.length ≤ USIZE_MAX) (n : Nat) (bs : Bytes)
+    (site : String) : rowsP u ts n 0 bs ≠ .panic site :=
+  rowsP_np u ts hts n 0 bs site
+
+open ScyllaVerif.C08V in
+/-- The variable-length integer decoder (vector element sizes, `duration` cells) never reaches its shift /
+`read_uint` assertion / `u64` overflow. -/
+theorem no_panic_vint (bs : Bytes) (site : String) : uvintDecP bs ≠ .panic site :=
+  uvintDecP_np bs site
+
+open ScyllaVerif.C08V in
+/-- Termination and "value or error": the typed decoders are total functions defined by structural recursion on the
+column type and on the element count, and their outcome is `ok` or `err`. -/
+theorem typed_value_or_error (u : Bytes → Bool) (t : CqlTy) (bs : Bytes) :
+    (∃ v, decValP u t bs = .ok v) ∨ (∃ e, decValP u t bs = .err e) := by
+  have := decValP_np u t bs
+  cases h : decValP u t bs with
+  | ok v => exact .inl ⟨v, rfl⟩
+  | err e => exact .inr ⟨e, rfl⟩
+  | panic s => exact (this s h).elim
+
+open ScyllaVerif.C08V in
+/-- Non-vacuity: the panic sites are genuine — a reader handed a count beyond the slice without the guard's
+protection would panic (`split_at`), and the guarded reader returns an error on the same input. -/
+example : readRawP 5 [1, 2, 3] = .err .rawCqlBytesReadError := by rfl
+open ScyllaVerif.C08V in
+example : expectShape (α := Nat) .map (.list (.native .int)) (.ok 0) =
+    .panic "unreachable!(Typecheck should have prevented this scenario!)" := by rfl
+
+/-! ### materialisation bounds for the panic-instrumented iterators, and no zero-sized vector elements -/
+
+open ScyllaVerif.C08V in
+theorem typed_list_bound (f : Bytes → Out CqlVal) (n : Nat) (bs : Bytes) (vs : List CqlVal)
+    (h : seqP f n bs = .ok vs) : vs.length = n ∧ 4 * n ≤ bs.length := seqP_bound f n bs vs h
+
+open ScyllaVerif.C08V in
+theorem typed_map_bound (fk fv : Bytes → Out CqlVal) (n : Nat) (bs : Bytes) (r : List (CqlVal × CqlVal))
+    (h : mapP fk fv n bs = .ok r) : r.length = n ∧ 8 * n ≤ bs.length := mapP_bound fk fv n bs r h
+
+open ScyllaVerif.C08V in
+/-- A vector whose dimensions are all positive (guaranteed by the type parsers since fix 2a278cb) has a positive
+fixed element size, hence `n` elements need at least `n` bytes: the "zero-sized element" amplification is gone. -/
+theorem typed_vector_bound (f : Bytes → Out CqlVal) (elt : CqlTy) (hd : DimsPos elt) (size : Nat)
+    (hs : sizeForVectorSat elt = some size) (n : Nat) (bs : Bytes) (vs : List CqlVal)
+    (h : vecFixedP f size n bs = .ok vs) : vs.length = n ∧ n ≤ bs.length :=
+  vecFixedP_bound f size (sizeForVectorSat_pos elt hd size hs) n bs vs h
+
+/-! ### the tablets routing payload -/
+
+open ScyllaVerif.C08T in
+/-- `RawTablet::from_custom_payload` never panics, for all payload bytes: the `expect` / `unreachable!` test the
+static column type, and `first_token + 1` is guarded by `last_token > first_token`. -/
+theorem no_panic_tablet (bs : List UInt8) (site : String) : parsePayloadP bs ≠ .panic site :=
+  parsePayloadP_np bs site
+
+open ScyllaVerif.C08T in
+/-- Apart from its (unreachable) panic sites the function IS C15's model `Tablets.parsePayload`, which C15 compares
+with the real code on arbitrary payload bytes and for which `Props/C15` proves the range invariant. -/
+theorem tablet_is_C15_model (bs : List UInt8) : parsePayloadP bs = lift (ScyllaVerif.Tablets.parsePayload bs) :=
+  parsePayloadP_eq bs
+
+open ScyllaVerif.C08T in
+/-- Non-vacuity of the guard: without `last_token > first_token`, `first_token = i64::MAX` would reach the overflow. -/
+example : (if (I64_MAX + 1 > I64_MAX) then true else false) = true := by decide
 
 end ScyllaVerif.Props.C08Typed
